@@ -379,3 +379,26 @@ META = {
     'assumptions': ['item names handed to the transformations are canonical (lower case), as produced by the item factory',
                     'termination not proved'],
 }
+
+
+def bounded_checks(tier, seed):
+    """native metamorphic check (bounded/C23_project.py): one 4-file project in 9 spellings (sources upper / capitalised /
+    mixed per occurrence x configuration lower / upper / mixed) against the all-lower-case run; bounded, never proved"""
+    import json
+    import os
+    import subprocess
+    root = os.path.dirname(os.path.dirname(os.path.abspath(__file__)))
+    repo = os.environ.get('LOKI_REPO', '/repo')
+    p = subprocess.run([os.environ.get('LOKI_PYTHON', '/venv/bin/python'), os.path.join(root, 'bounded', 'C23_project.py')],
+                       capture_output=True, text=True, timeout=1800, env=dict(os.environ, PYTHONPATH=repo), cwd=repo)
+    line = next((l for l in reversed(p.stdout.splitlines()) if l.startswith('{')), None)
+    rule = ('one project (modules, a derived type with a type-bound procedure, a generic interface, a module function, '
+            'USE ... ONLY imports, block / ignore / role entries in the configuration) written in 9 spellings that differ '
+            'only in letter case: item kinds, names, ignore flags, roles, edges, the set of applications with their '
+            'targets, and the order along edges equal those of the lower-case run up to letter case')
+    if line is None:
+        return [{'name': 'native/case-permuted-project', 'cases': 0, 'violation': False, 'error': p.stderr[-600:], 'rule': rule}]
+    d = json.loads(line)
+    return [{'name': 'native/case-permuted-project', 'cases': d['cases'], 'distinct': d['cases'], 'rule': rule,
+             'bound': 'one project, 9 spellings', 'violation': bool(d['violation']), 'cex': d.get('cex'),
+             'n_violations': d.get('n_violations', 0)}]
